@@ -1,6 +1,7 @@
 package rules
 
 import (
+	"sort"
 	"strings"
 
 	"golang.org/x/tools/go/ssa"
@@ -65,7 +66,7 @@ func ruleLoadErrorsPropagate(c *eng.Ctx) {
 		}
 		// instructions that hand the error on
 		consume := eng.NewCut()
-		for _, u := range eng.Uses(ev) {
+		for _, u := range eng.UsesReaching(ev) {
 			switch x := u.(type) {
 			case *ssa.Return, *ssa.Send, *ssa.MapUpdate, *ssa.MakeClosure:
 				consume.AddInstrs(u)
@@ -87,7 +88,12 @@ func ruleLoadErrorsPropagate(c *eng.Ctx) {
 		fail := eng.NilEdges(fn, eng.SameAs(ev), false)
 		if len(fail) == 0 {
 			// never tested: it must at least be handed on
-			c.Check(consume.Size() > 0, rule, key, s.Call.Pos(), "the error of %s is not tested here, it is handed on (%d uses)", callee, consume.Size())
+			var where []string
+			for in := range consume.Instrs {
+				where = append(where, c.P.Pos(in.Pos()))
+			}
+			sort.Strings(where)
+			c.Check(consume.Size() > 0, rule, key, s.Call.Pos(), "the error of %s is not tested here, it is handed on (%d uses: %s)", callee, consume.Size(), strings.Join(where, " "))
 			continue
 		}
 		ok := true
